@@ -198,6 +198,22 @@ func (g *sgen) declStmt() {
 		// redeclaration in the same scope is not legal: assign instead
 		for _, v := range g.visible() {
 			if v.name == name && !v.readonly {
+				if g.rng.Intn(2) == 0 {
+					// partial redeclaration: ':=' ASSIGNS to the variable declared earlier in this scope
+					// (closures created before an intervening yield must see the assignment)
+					fresh := fmt.Sprintf("n%d", g.nid())
+					switch g.rng.Intn(3) {
+					case 0:
+						g.line("%s, %s := %s, %s", name, fresh, g.expr(), g.expr())
+					case 1:
+						g.line("%s, %s := %s, %d", fresh, name, g.expr(), 1+g.rng.Intn(9))
+					default:
+						g.line("%s, %s := func() (int, int) { return %s, %s }()", name, fresh, g.expr(), g.expr())
+					}
+					g.line("tr.U(%s)", fresh)
+					g.feats["partial-redeclaration"] = true
+					return
+				}
 				g.line("%s = %s", name, g.expr())
 				g.feats["assign"] = true
 				return
